@@ -44,7 +44,7 @@ class BenchAst:
         for i in range(rng.randint(1, 7)):
             t = rng.choice(GATES)
             k = 1 if t in ("buf", "buff", "not") else rng.randint(1, min(4, len(pool)))
-            net = f"{rng.choice(['n', 'w', 'G1'])}{i}"
+            net = f"{rng.choice(['n', 'w', 'G1', '_n'])}{i}"          # `_n3`: identifiers may start with an underscore (K40)
             ops = rng.sample(pool, k)
             if k >= 1 and t not in ("buf", "buff", "not") and rng.random() < 0.12:
                 dup = rng.choice(ops)                     # an operand given 2, 3 or 4 times (cancels in XOR/XNOR: K35)
@@ -246,6 +246,10 @@ class P(Prop):
             ast = BenchAst(rng)
             self.check_read(ast, ast.render())
             c = gen.circuit(rng, n_in=(1, 4), n_gates=(1, 7), consts=0.3, dead=False, out_inputs=0.1)
+            if rng.random() < 0.2:
+                # a node whose name starts with an underscore (legal for the reader since K40)
+                v = rng.choice(sorted(c.graph.nodes))
+                c = cg.tx.relabel(c, {v: "_" + v})
             self.check_roundtrip(c)
             if self.too_many():
                 break
